@@ -212,6 +212,9 @@ class BlockParser:
 				other_index = other_tokens.find(text[index])
 				if len(other_closes) > 0 and other_closes[-1] == other_tokens[other_index]:
 					other_closes.pop()
+				elif len(other_closes) > 0 and other_closes[-1] in '"\'':
+					# XXX 引用符の内側の括弧は無視
+					pass
 				elif other_index % 2 == 0:
 					other_closes.append(other_tokens[other_index + 1])
 
